@@ -218,7 +218,7 @@ def run_case(ctx, res, p):
 
 
 CONFIGS = ["full", "full_nystroem", "sparse_cholesky", "sparse_kmeans", "sparse_nystroem", "fixed<", "fixed=", "fixed>",
-           "inferred"]
+           "inferred", "full+landmarks=", "full+landmarks>", "full_nystroem+landmarks"]
 
 
 def gen_case(rng, latent):
@@ -253,6 +253,12 @@ def gen_case(rng, latent):
         Xu = X.copy(); gp = dict(gp_type="fixed")
     elif cfg == "fixed>":
         Xu = lm(n + 4); gp = dict(gp_type="fixed")
+    elif cfg == "full+landmarks=":
+        Xu = lm(n)                      # as many arbitrary landmarks as cells: resolves to 'full'
+    elif cfg == "full+landmarks>":
+        Xu = lm(n + 4); gp = dict(gp_type="full") if rng.random() < 0.5 else {}
+    elif cfg == "full_nystroem+landmarks":
+        Xu = lm(n + int(rng.integers(0, 3))); gp = dict(rank=[0.9, 3][rng.integers(2)])
     if latent == "fit":
         gp["optimizer"] = "L-BFGS-B"
     return {"op": "fit", "estimator": est, "config": cfg, "gp_kwargs": gp, "X": X, "Xu": Xu,
